@@ -388,6 +388,9 @@ def run_json_verbose_share(ctx, binpath, obj, key="cases", out_key="outs", share
 
     with ThreadPoolExecutor(max_workers=2) as ex:
         (rcq, rq, rawq), (rcv, rv, rawv) = list(ex.map(one, (False, True)))
+    if os.environ.get("VERIF_HX_TRACE") == "1":      # diagnostics: how many driver processes of each run installed the formatting logger
+        ctx.log("hx trace (%s): formatting logger installed in %d processes of the verbose run, %d of the quiet run" % (
+            os.path.basename(binpath), rawv.count("@@HXVERBOSE"), rawq.count("@@HXVERBOSE")))
     if rq is None or rv is None:
         return (rcq or rcv or 1), None, (rawq if rq is None else rawv), loud
     oq, ov = rq.get(out_key) or [], rv.get(out_key) or []
